@@ -473,3 +473,49 @@ def r7(ctx):
             last = max(inner, key=lambda g: len(cfg.dominators(body)[g.block]))
             ok2 = all(cfg.must_pass(body, last.target, l, via_blocks=[p.bb]) for l in loop.latches)
             ctx.require(ok2, body, 'found-implies-pushed|' + side, 'a found %s candidate is always pushed' % side, None, p.span)
+
+
+@rule('C03', 'R-C03-8', 'T2 CHAIN (the unit of merging is the whole word)',
+      'merge_bytes merges within one match of the word splitter at a time and starts from ALL bytes of that match: the outer loop runs '
+      'over `self.state.2.find_iter(s)` unadapted and the per-word byte / id tables are built from the whole matched text. Cutting a word '
+      'into pieces (chunks, a length cap) never forms the candidate pairs that straddle a cut: the result is not the canonical merge')
+def r8(ctx):
+    from analysis.seq import seq_of_iter, seq_of, iter_init, next_call_of, item_subst_fn, ITEM, subst
+    from analysis.pat import match, Call, ANY, Pred
+    from analysis.sym import core, symbolizer, simplify, defs_of
+    b = _mb(ctx)
+    outer = None
+    for lp in sorted(cfg.loops(b), key=lambda l: -len(l.blocks)):
+        nx = next_call_of(b, lp)
+        if nx is not None:
+            outer = (lp, nx)
+            break
+    if outer is None:
+        raise AnchorMissing('the word loop of merge_bytes')
+    lp, nx = outer
+    segs = seq_of_iter(ctx.facts, b, iter_init(b, sym(b, nx.args[0])))
+    FIND = Call('Regex::find_iter', ('field', ('field', ('arg', 1, ANY), 'state'), 2), ('arg', 2, ANY))
+    ok = segs is not None and len(segs) == 1 and segs[0].kind == 'each' and not segs[0].conds and core(segs[0].elem) == ITEM and match(core(segs[0].src), FIND)
+    ctx.require(ok, b, 'word-source', 'the word loop runs over every match of the splitter regex on the input, one word at a time',
+                'the word loop of merge_bytes runs over %s' % [repr(x)[:200] for x in segs or ()], nx.span)
+    # the per-word tables: Vec<Vec<u8>> and Vec<Option<u32>> built inside the loop from the bytes of the matched word
+    f = item_subst_fn(b, nx, 0)
+    z = symbolizer(b)
+    n = 0
+    for name in ('std::vec::Vec<std::vec::Vec<u8>>', 'std::vec::Vec<std::option::Option<u32>>'):
+        for l in range(len(b.locals)):
+            if b.local_ty(l) != name or not b.var_name(l):
+                continue
+            whole, partial = defs_of(b, l)
+            init = [d for d in whole if d.bb in lp.blocks]
+            if len(init) != 1:
+                continue
+            d = init[0]
+            v = nosite(simplify(z.rvalue(d.rv, 0, (l,)) if hasattr(d, 'rv') else z.call(d, 0, (l,))))
+            ws = seq_of(ctx.facts, b, subst(v, f))
+            n += 1
+            okw = ws is not None and len(ws) == 1 and ws[0].kind == 'each' and not ws[0].conds and core(ws[0].src) == ITEM
+            ctx.require(okw, b, 'whole-word|' + b.var_name(l), '`%s` starts with one entry per byte of the whole matched word' % b.var_name(l),
+                        '`%s` is built from %s instead of all bytes of the matched word' % (b.var_name(l), [repr(x)[:160] for x in ws or ()]), d.span)
+    if n < 2:
+        raise AnchorMissing('per-word byte and id tables of merge_bytes (found %d)' % n)
